@@ -339,3 +339,42 @@ pub async fn lb_seq(args: &[&str]) -> String {
     }
     picks.join(",")
 }
+
+// lb_stress <lb yaml hex> <conns> <per_task> <tasks>: many tasks call the load balancer's connect() in a
+// tight loop (no relay, no rules); reports how often each member was recorded
+pub async fn lb_stress(args: &[&str]) -> String {
+    let mut w = build_world(args[1], "-");
+    let doc = String::from_utf8_lossy(&unhex(args[0])).to_string();
+    let v: serde_yaml::Value = serde_yaml::from_str(&doc).unwrap();
+    let mut lb = crate::connectors::from_value(&v).unwrap();
+    lb.init().await.unwrap();
+    let name = lb.name().to_owned();
+    Arc::get_mut(&mut w.state).unwrap().connectors.insert(name.clone(), lb.into());
+    let w = Arc::new(w);
+    let per: usize = args[2].parse().unwrap();
+    let tasks: usize = args[3].parse().unwrap();
+    let lbc = w.state.connectors.get(&name).unwrap().clone();
+    let mut hs = vec![];
+    for _ in 0..tasks {
+        let w = w.clone();
+        let lbc = lbc.clone();
+        hs.push(tokio::spawn(async move {
+            let mut counts: HashMap<String, usize> = HashMap::new();
+            let ctx = w.state.contexts.create_context("l".into(), "127.0.0.1:1".parse().unwrap()).await;
+            for _ in 0..per {
+                let _ = lbc.clone().connect(w.state.clone(), ctx.clone()).await;
+                let c = ctx.read().await.props().connector.clone().unwrap_or_default();
+                *counts.entry(c).or_insert(0) += 1;
+            }
+            counts
+        }));
+    }
+    let mut total: std::collections::BTreeMap<String, usize> = Default::default();
+    for h in hs {
+        for (k, v) in h.await.unwrap() {
+            *total.entry(k).or_insert(0) += v;
+        }
+    }
+    w.log.lock().unwrap().clear();
+    total.into_iter().map(|(k, v)| format!("{}={}", hex(k.as_bytes()), v)).collect::<Vec<_>>().join(",")
+}
